@@ -2660,6 +2660,7 @@ class Circuit(AbstractCircuit):
             return self
         new_circuit = Circuit(tags=self.tags + new_tags)
         new_circuit._moments[:] = self._moments
+        new_circuit._placement_cache = None
         return new_circuit
 
     def with_noise(self, noise: cirq.NOISE_MODEL_LIKE) -> cirq.Circuit:
